@@ -4,6 +4,7 @@ import Gtree.Lemmas.HeapGrower
 import Gtree.Lemmas.SourceRefines
 import Gtree.Lemmas.Output
 import Gtree.Lemmas.PathLex
+import Gtree.Lemmas.TreeFacts
 /-
   C05 — walk visits the rendered tree: same nodes, same order, consistent node facts.
   In the model both the text printer and the walker consume the same list of visits (`growRoot`), as in
@@ -169,4 +170,16 @@ theorem C05_walker_is_the_source {σ : Type} (dg : SrcH.defaultGrowerSimple) (dw
   refine ⟨h', hrun, ?_, ?_⟩
   · rw [SrcH.walk_heap dw h' cb ts s rs fuel hr' (by omega), SrcH.ptrsKids_shape hs]
   · rw [← SrcH.ptrsKids_shape hs, SrcH.roots_visits h' ts rs hr', hrd]
+end Gtree
+
+namespace Gtree
+
+/-- **C05 (facts: composition).**  The three Walk operations of the simple tree grow the roots and then hand them to
+    the walker, and nothing else — the composition `walker_is_the_source` is stated for. -/
+theorem C05_facts_walk_grows_then_walks :
+    lookupL "walk" Facts.treeSimpleCalls = ["grower.grow", "walker.walk"] ∧
+    lookupL "walkProgrammably" Facts.treeSimpleCalls = ["grower.grow", "walker.walk"] ∧
+    lookupL "walkIterProgrammably" Facts.treeSimpleCalls = ["grower.grow", "walker.walkIter"] ∧
+    lookupL "newWalkerSimple" Facts.ctorReturns = ["defaultWalkerSimple"] := by decide
+
 end Gtree
